@@ -39,6 +39,8 @@ def _q4a(r00, r01, r02, r10, r11, r12, r20, r21, r22, e0, e1, e2):
                 continue
             if not q.in_range(r, 4):
                 return q.SKIP
+            if f == 2 and r >= q.SHARD.get("f2max", 4):
+                return q.SKIP
             if t == 0 and fixed is not None and r != fixed[f]:
                 return q.SKIP
             row.append(r)
@@ -277,9 +279,10 @@ def _rows(nf, vals=(0, 1, 2, 3)):
 QUERIES = [
     {"name": "Q4a", "fn": q4a,
      "shards": {"quick": [{"nt": 3, "nf": 2, "order": [0, 1, 2], "fix_t0": r} for r in _rows(2)] + [{"nt": 3, "nf": 2, "order": [2, 0, 1], "fix_t0": r} for r in _rows(2) if r[0] >= 2],
-                "thorough": [{"nt": 3, "nf": 3, "order": o, "fix_t0": r} for o in ([0, 1, 2], [2, 1, 0], [1, 2, 0]) for r in _rows(3)]},
+                "thorough": [{"nt": 3, "nf": 3, "order": [0, 1, 2], "fix_t0": r, "f2max": 3} for r in _rows(3) if r[2] <= 2]
+                            + [{"nt": 3, "nf": 3, "order": [2, 1, 0], "fix_t0": r, "f2max": 3} for r in _rows(3) if r[2] <= 2 and r[0] >= 2]},
      "timeout": {"quick": 600, "thorough": 2400},
-     "bound": "role of every (target, file) in {none, input, output, both} and existence of every file symbolic; quick: 3 targets x 2 files, definition order 0,1,2 (all) and 2,0,1 (first target producing/self-looping on file 0); thorough: 3 x 3, 3 orders"},
+     "bound": "role of every (target, file) in {none, input, output, both} and existence of every file symbolic; quick: 3 targets x 2 files, definition order 0,1,2 (all) and 2,0,1 (first target producing/self-looping on file 0); thorough: 3 x 3 (third file never both input and output of one target), definition order 0,1,2 and, for producing first targets, 2,1,0"},
     {"name": "Q4b", "fn": q4b, "shards": {"quick": [{"be": "slurm"}], "thorough": [{"be": b} for b in ("slurm", "sge", "lsf", "local")]}, "timeout": {"quick": 900, "thorough": 1200},
      "bound": "5 ill-formed workflows (two producers across spellings, missing source, 2-cycle, self-loop, 3-cycle not reachable from the first target) next to a healthy target x "
               "{run, run --dry-run, status, clean --all -f, touch, cancel -f, info} x a tracked running job present or not"},
